@@ -5,7 +5,7 @@ from tools.framework import Case, Err, enc, dec
 from mingus.core import value, meter
 
 ID = "C09"
-LEAN_MODULES = ["Mingus.Props.C09", "Mingus.Tie.C09"]
+LEAN_MODULES = ["Mingus.Props.C09", "Mingus.Props.C09Float", "Mingus.Lemmas.FloatErr", "Mingus.Tie.C09"]
 RULE = ("the 80-value vocabulary (10 base values x dots 0..4, x triplet/quintuplet/septuplet) built with the library's own "
         "constructors and analysed; every vocabulary value x perturbations {+-1%, +-0.5%, +-0.1%} and the doubles adjacent to "
         "every branch threshold at every scale; seeded random positive doubles; add/subtract on all ordered pairs of a 20-value "
